@@ -25,6 +25,7 @@ import Gecs.Model.Env
 -- OBLIGATIONS: Gecs.Env.C18_storage_never_sync Gecs.Env.C18_storage_send_iff_components_send
 -- OBLIGATIONS: Gecs.Env.C18_handles_send_sync_regardless Gecs.Env.C18_envelope Gecs.Env.C18_twins_ok
 -- OBLIGATIONS: Gecs.Env.C18_structural_ops_exclusive Gecs.Env.C18_holders_borrow
+-- OBLIGATIONS: Gecs.Env.C18_reference_conversions_tied
 
 namespace Gecs.Env
 
@@ -96,5 +97,16 @@ theorem C18_twins_ok :
     (∀ g ∈ structuralOps, ∀ f ∈ Gen.sigs, f.resultBorrows = false → rejected f g = false) ∧
     (∀ f ∈ holders, ∀ g ∈ Gen.sigs, f.recv = .shared → g.recv = .shared → rejected f g = false) := by
   decide
+
+/-- (b') the reference-to-reference conversions (`From<&Entity<A>> for &EntityAny` and its three
+siblings, all `unsafe { transmute }`): the table GENERATED from the impl headers of src/** says
+for each whether the produced reference carries the consumed reference's lifetime.  All must:
+an untied conversion lets safe code keep a handle reference across a structural change.
+Tie: harness/rustc compiles, per generated row, a program stretching the result to `'static`
+(must be rejected) and its twin (must compile). -/
+theorem C18_reference_conversions_tied : ∀ r ∈ Gen.refImpls, r.2 = true := by
+  decide
+
+example : Gen.refImpls.length ≥ 1 := by decide
 
 end Gecs.Env
